@@ -11,6 +11,11 @@
 // two members shared by S0 and S1. mc.BFS explores ALL orders
 // of submission to depth quick 4 / thorough 5, states deduplicated on the real storage dump.
 //
+// BATCHING: a second BFS delivers headers grouped into ONE syncBlockHeader call: all header sequences of length ≤ 3
+// (distinct heights; signers ∈ {quorum of S0, of S1, of S2, mixed below every threshold}) in ALL compositions into
+// transactions ([a][b][c], [a,b][c], [a][b,c], [a,b,c]). The model walks a batch in order, so a key height recorded
+// by an earlier header of the same batch is in force for the later ones; honest batches must be accepted.
+//
 // Reference model (shares no code with the implementation): stored heights, key height -> peer set, both
 // derived only from the headers the implementation accepted. Per transition:
 //
@@ -24,7 +29,7 @@
 // NEO / NEO N3 / N3 legacy. Trust root: genesis header index 5 (second run: index 0 with header indices {0,1,8,12}),
 // NextConsensus = script hash of A (3-of-4). Events: header
 // index ∈ {3,5,8,12,20} × NextConsensus ∈ {A,B,C} × witness script ∈ {A,B,C} × signatures ∈ {ok, under, dup,
-// reordered, foreign, badsig, all-n} plus two-header batches; all sequences to depth quick 3 / thorough 4.
+// reordered, foreign, badsig, all-n} plus ALL ordered two-header batches over a reduced alphabet (one call); all sequences to depth quick 3 / thorough 4.
 //
 //	tracked (index, NextConsensus) changes ⇒ some submitted header has exactly the new (index, NextConsensus),
 //	     index > tracked index, witness script hash == tracked NextConsensus, ≥ m distinct valid member signatures
@@ -155,10 +160,11 @@ type ontState struct {
 	Keys   map[uint32]int    // model: key height -> set index
 	ok     bool              // outcome of the transaction that led here (not part of the key)
 	err    string
+	used   int // batch mode: headers submitted so far on this path
 }
 
 func (s ontState) clone() ontState {
-	n := ontState{Stored: map[uint32]string{}, Keys: map[uint32]int{}}
+	n := ontState{Stored: map[uint32]string{}, Keys: map[uint32]int{}, used: s.used}
 	for k, v := range s.Stored {
 		n.Stored[k] = v
 	}
@@ -272,68 +278,114 @@ func ontPart() mc.Stats {
 	peerPrefix := hsenv.HSPrefix("consensusPeer", ontChain)
 	khKey := hsenv.HSPrefix("keyHeights", ontChain)
 
-	check := func(s ontState, e *ontEvent, nd polyenv.Dump, txOK bool, txErr string, path []string) (accepted bool) {
+	// inForce: peer set index at the greatest model key height strictly below h.
+	inForce := func(keys map[uint32]int, h uint32) (uint32, int, bool) {
+		k, found := uint32(0), false
+		for kh := range keys {
+			if kh < h && (!found || kh > k) {
+				k, found = kh, true
+			}
+		}
+		return k, keys[k], found
+	}
+	storedAt := func(d map[string]string, h uint32) bool {
+		_, in := d[idxPrefix+string(utils.GetUint32Bytes(h))]
+		return in
+	}
+	// check evaluates one transaction carrying a batch of 1..3 headers. The model walks the batch in order: a key
+	// height recorded by an earlier header of the same batch counts for the later ones.
+	check := func(s ontState, batch []*ontEvent, bid string, nd polyenv.Dump, txOK bool, txErr string, path []string) {
 		dm := nd.Map()
-		_, accepted = dm[idxPrefix+string(utils.GetUint32Bytes(e.height))]
-		_, had := s.Stored[e.height]
 		changed := nd.String() != s.D.String()
+		m := s.clone()
+		var hx []string
+		for _, e := range batch {
+			hx = append(hx, hex.EncodeToString(e.raw))
+		}
 		detail := func(extra map[string]any) map[string]any {
-			d := map[string]any{"router": "ont", "path": path, "event": e.id, "header_hex": hex.EncodeToString(e.raw),
+			d := map[string]any{"router": "ont", "path": path, "event": bid, "headers_in_one_tx": len(batch), "headers_hex": hx,
 				"model_key_heights": fmt.Sprint(s.Keys), "model_stored": fmt.Sprint(s.Stored), "tx_ok": txOK, "tx_err": txErr}
 			for k, v := range extra {
 				d[k] = v
 			}
 			return d
 		}
-		if had {
-			r.Class("ont:resubmitted-height")
-			if changed {
-				r.Violation("ont:state-changed-by-header-at-already-stored-height", detail(nil))
-			}
-			return false
+		tag := ""
+		if len(batch) > 1 {
+			tag = "/batch"
 		}
-		// peer set in force: greatest key height strictly below h
-		k, found := uint32(0), false
-		for kh := range s.Keys {
-			if kh < e.height && (!found || kh > k) {
-				k, found = kh, true
+		nAccepted, nFresh := 0, 0
+		honest := true // every fresh header is the ok-variant of the set in force (sequentially)
+		hm := s.clone()
+		for _, e := range batch {
+			if _, had := hm.Stored[e.height]; had {
+				continue
+			}
+			_, si, found := inForce(hm.Keys, e.height)
+			if !found || e.variant != fmt.Sprintf("ok:S%d", si) {
+				honest = false
+				break
+			}
+			hm.Stored[e.height] = e.id
+			if e.cfg >= 0 {
+				hm.Keys[e.height] = e.cfg
 			}
 		}
-		dv, size := 0, 0
-		if found {
-			P := member[s.Keys[k]]
-			size = len(P)
-			seen := map[string]bool{}
-			for _, sg := range e.sigs {
-				if !sg.Bad && P[sg.By.PubHex] {
-					seen[sg.By.PubHex] = true
+		for _, e := range batch {
+			if _, had := m.Stored[e.height]; had {
+				r.Class("ont:resubmitted-height")
+				continue
+			}
+			nFresh++
+			accepted := storedAt(dm, e.height)
+			k, si, found := inForce(m.Keys, e.height)
+			dv, size := 0, 0
+			if found {
+				P := member[si]
+				size = len(P)
+				seen := map[string]bool{}
+				for _, sg := range e.sigs {
+					if !sg.Bad && P[sg.By.PubHex] {
+						seen[sg.By.PubHex] = true
+					}
 				}
+				dv = len(seen)
 			}
-			dv = len(seen)
-		}
-		enough := found && dv*3 >= size
-		vk := e.variant[:strings.Index(e.variant, ":")]
-		if len(path) >= 2 && (e.variant == "ok:S1" || e.variant == "dup:S1") {
-			r.Sample(map[string]any{"router": "ont", "path": path, "stored": accepted, "key_height_in_force": k, "distinct_valid_members": dv, "peer_set_size": size})
-		}
-		if accepted {
-			r.Class("ont:accept")
-			r.Case(fmt.Sprintf("ont/accept/%s/inforce=S%d", e.variant, s.Keys[k]))
-			if !enough {
-				r.Violation("ont:header-accepted-without-one-third-of-distinct-peers-at-greatest-key-height-below:"+vk,
-					detail(map[string]any{"key_height_in_force": k, "peer_set_size": size, "distinct_valid_members": dv}))
+			enough := found && dv*3 >= size
+			vk := e.variant[:strings.Index(e.variant, ":")]
+			if len(path) >= 2 && (e.variant == "ok:S1" || e.variant == "dup:S1") {
+				r.Sample(map[string]any{"router": "ont", "path": path, "header": e.id, "stored": accepted, "key_height_in_force": k, "distinct_valid_members": dv, "peer_set_size": size})
 			}
-		} else {
-			r.Class("ont:reject")
-			r.Case(fmt.Sprintf("ont/reject/%s/inforce=S%d", e.variant, s.Keys[k]))
-			if changed {
+			if accepted {
+				nAccepted++
+				r.Class("ont:accept")
+				r.Case(fmt.Sprintf("ont/accept%s/%s/inforce=S%d", tag, e.variant, si))
+				if !enough {
+					r.Violation("ont:header-accepted-without-one-third-of-distinct-peers-at-greatest-key-height-below:"+vk,
+						detail(map[string]any{"offending_header": e.id, "key_height_in_force": k, "peer_set_in_force": fmt.Sprintf("S%d", si), "peer_set_size": size, "distinct_valid_members": dv}))
+				}
+				m.Stored[e.height] = e.id
+				if e.cfg >= 0 {
+					m.Keys[e.height] = e.cfg
+				}
+			} else {
+				r.Class("ont:reject")
+				r.Case(fmt.Sprintf("ont/reject%s/%s/inforce=S%d", tag, e.variant, si))
+			}
+		}
+		if len(batch) > 1 {
+			r.Class("ont:batch")
+		}
+		if nAccepted == 0 && changed {
+			if nFresh == 0 {
+				r.Violation("ont:state-changed-by-header-at-already-stored-height", detail(nil))
+			} else {
 				r.Violation("ont:state-changed-without-accepted-header", detail(nil))
 			}
-			if found && e.variant == fmt.Sprintf("ok:S%d", s.Keys[k]) {
-				canonicalRejected("ont canonical header rejected: %s after %v: %v", e.id, path, txErr)
-			}
 		}
-		return accepted
+		if honest && nFresh > 0 && nAccepted < nFresh {
+			canonicalRejected("ont honest header(s) rejected: %s after %v: %v", bid, path, txErr)
+		}
 	}
 	// recorded peer sets / key heights must equal the model
 	inv := func(s ontState, path []string) {
@@ -388,35 +440,118 @@ func ontPart() mc.Stats {
 				map[string]any{"router": "ont", "path": path, "key_heights": list, "model_heights": keysOf(want)})
 		}
 	}
-	st := mc.BFS(mc.Config[ontState]{
-		Init: []ontState{init}, MaxDepth: depth, Workers: workers, Stop: r.Expired,
-		Key:    func(s ontState) string { return s.key() },
-		Events: func(s ontState, d int) []string { return events },
-		Inv:    inv,
-		Step: func(s ontState, id string) (ontState, bool) {
-			e := evs[id]
-			sim := getSim()
-			defer putSim(sim)
-			sim.Load(s.D)
-			res := sim.Exec(on.HeadersTx(ontChain, e.raw), 10, 1000)
-			r.Eval()
-			n := s.clone()
-			n.D = sim.Dump()
-			n.ok, n.err = res.OK, fmt.Sprint(res.Err)
-			_, had := s.Stored[e.height]
-			if _, in := n.D.Map()[idxPrefix+string(utils.GetUint32Bytes(e.height))]; in && !had {
-				n.Stored[e.height] = id
+	batches := map[string][]*ontEvent{}
+	for _, id := range events {
+		batches[id] = []*ontEvent{evs[id]}
+	}
+	step := func(s ontState, id string) (ontState, bool) {
+		batch := batches[id]
+		var raws [][]byte
+		for _, e := range batch {
+			raws = append(raws, e.raw)
+		}
+		sim := getSim()
+		defer putSim(sim)
+		sim.Load(s.D)
+		res := sim.Exec(on.HeadersTx(ontChain, raws...), 10, 1000)
+		r.Eval()
+		n := s.clone()
+		n.D = sim.Dump()
+		n.ok, n.err = res.OK, fmt.Sprint(res.Err)
+		n.used = s.used + len(batch)
+		dm := n.D.Map()
+		for _, e := range batch {
+			if _, had := n.Stored[e.height]; !had && storedAt(dm, e.height) {
+				n.Stored[e.height] = e.id
 				if e.cfg >= 0 {
 					n.Keys[e.height] = e.cfg
 				}
 			}
-			return n, true
-		},
-		Check: func(prev ontState, id string, next ontState, path []string) {
-			check(prev, evs[id], next.D, next.ok, next.err, path)
-		},
+		}
+		return n, true
+	}
+	chk := func(prev ontState, id string, next ontState, path []string) {
+		check(prev, batches[id], id, next.D, next.ok, next.err, path)
+	}
+	st := mc.BFS(mc.Config[ontState]{
+		Init: []ontState{init}, MaxDepth: depth, Workers: workers, Stop: r.Expired,
+		Key:    func(s ontState) string { return s.key() },
+		Events: func(s ontState, d int) []string { return events },
+		Inv:    inv, Step: step, Check: chk,
 	})
+	// BATCHING dimension: all header sequences of length <= 3 over a reduced alphabet (heights around the key heights,
+	// signers ∈ {quorum of S0, of S1, of S2, mixed below every threshold}), distinct heights, in ALL compositions into
+	// transactions ([a][b][c], [a,b][c], [a][b,c], [a,b,c]): an event is a batch of 1..3 headers in ONE syncBlockHeader
+	// call and a path may carry at most 3 headers in total.
+	var small []*ontEvent
+	for bi, b := range bases {
+		if b.h == 0 {
+			continue
+		}
+		for _, v := range variants {
+			if !strings.HasPrefix(v.name, "ok:S") || strings.Contains(v.name, "∩") {
+				continue
+			}
+			small = append(small, evs[fmt.Sprintf("h=%d/cfg=%s/%s", b.h, cfgName(b.cfg), v.name)])
+		}
+		var peers []*polyenv.Acct
+		if b.cfg >= 0 {
+			peers = sets[b.cfg]
+		}
+		mixed := []*polyenv.Acct{excl[0][0], excl[1][0]}
+		e := &ontEvent{id: fmt.Sprintf("h=%d/cfg=%s/mixed:below-threshold", b.h, cfgName(b.cfg)), height: b.h, cfg: b.cfg, variant: "mixed:below-threshold", keys: mixed, sigs: by(mixed...)}
+		e.raw = on.OntHeaderLayout(b.h, peers, uint64(1000+bi), e.keys, e.sigs)
+		small = append(small, e)
+	}
+	bySize := map[int][]string{}
+	var gen func(cur []*ontEvent)
+	gen = func(cur []*ontEvent) {
+		if len(cur) > 0 {
+			var ids []string
+			for _, e := range cur {
+				ids = append(ids, e.id)
+			}
+			id := "[" + strings.Join(ids, " + ") + "]"
+			batches[id] = append([]*ontEvent{}, cur...)
+			bySize[len(cur)] = append(bySize[len(cur)], id)
+		}
+		if len(cur) == 3 {
+			return
+		}
+	next:
+		for _, e := range small {
+			for _, c := range cur {
+				if c.height == e.height {
+					continue next
+				}
+			}
+			gen(append(cur, e))
+		}
+	}
+	gen(nil)
+	sb := mc.BFS(mc.Config[ontState]{
+		Init: []ontState{init}, MaxDepth: 3, Workers: workers, Stop: r.Expired,
+		Key: func(s ontState) string { return fmt.Sprintf("%d|", s.used) + s.key() },
+		Events: func(s ontState, d int) []string {
+			var ev []string
+			for sz := 1; sz <= 3-s.used; sz++ {
+				ev = append(ev, bySize[sz]...)
+			}
+			return ev
+		},
+		Inv: inv, Step: step, Check: chk,
+	})
+	r.Note("ont_batch_mode", map[string]any{"member_headers": len(small), "batches_of_1": len(bySize[1]), "batches_of_2": len(bySize[2]), "batches_of_3": len(bySize[3]),
+		"states": sb.States, "transitions": sb.Transitions, "max_depth_txs": sb.MaxDepth, "truncated": sb.Truncated})
+	add(&st, sb)
 	return st
+}
+
+func cfgName(c int) string {
+	if c < 0 {
+		return "-"
+	}
+	return fmt.Sprintf("S%d", c)
 }
 
 func keysOf(m map[uint32]string) []uint32 {
@@ -531,13 +666,33 @@ func neoPart(k neoKit, g uint32, idxs []uint32) mc.Stats {
 			}
 		}
 	}
-	// two-header batches, both signed by A: ascending and descending index
-	h8, r8 := mk(8, 1, 0, "ok")
-	h12, r12 := mk(12, 2, 0, "ok")
-	for _, b := range []*neoEvent{{id: "batch[idx=8/next=B/witness=A/ok,idx=12/next=C/witness=A/ok]", hdrs: []neoHdr{h8, h12}, raws: [][]byte{r8, r12}},
-		{id: "batch[idx=12/next=C/witness=A/ok,idx=8/next=B/witness=A/ok]", hdrs: []neoHdr{h12, h8}, raws: [][]byte{r12, r8}}} {
-		events = append(events, b.id)
-		evs[b.id] = b
+	// two-header batches (ONE syncBlockHeader call): all ordered pairs of distinct-index headers over a reduced alphabet
+	// index ∈ {8,12} × NextConsensus ∈ {A,B,C} × witness ∈ {A,B} × {ok, under}
+	type member struct {
+		h   neoHdr
+		raw []byte
+		id  string
+	}
+	var mem []member
+	for _, idx := range []uint32{8, 12} {
+		for next := 0; next < 3; next++ {
+			for script := 0; script < 2; script++ {
+				for _, vn := range []string{"ok", "under"} {
+					h, raw := mk(idx, next, script, vn)
+					mem = append(mem, member{h, raw, fmt.Sprintf("idx=%d/next=%s/witness=%s/%s", idx, names[next], names[script], vn)})
+				}
+			}
+		}
+	}
+	for _, a := range mem {
+		for _, b := range mem {
+			if a.h.index == b.h.index {
+				continue
+			}
+			e := &neoEvent{id: "batch[" + a.id + " + " + b.id + "]", hdrs: []neoHdr{a.h, b.h}, raws: [][]byte{a.raw, b.raw}}
+			events = append(events, e.id)
+			evs[e.id] = e
+		}
 	}
 	w := baseWorld()
 	must(on.RegisterSideChain(w, vals, k.chain, k.router, k.name, []byte{5, 0, 0, 0}, k.extra), "register "+k.name)
@@ -617,15 +772,33 @@ func neoPart(k neoKit, g uint32, idxs []uint32) mc.Stats {
 			if len(path) >= 2 {
 				r.Sample(map[string]any{"router": k.name, "path": path, "tracked_before": fmt.Sprintf("(%d,%s)", prev.H, names[prev.NC]), "tracked_after": fmt.Sprintf("(%d,%d)", next.H, next.NC)})
 			}
-			justified := false
+			// justified: the new tracked state is reachable by applying the submitted headers in order, each one verified
+			// either against the state tracked when the transaction started (what the contract does) or against the
+			// state produced by an earlier justified header of the same batch (sequential following is legitimate too)
+			type tr struct {
+				h  uint32
+				nc int
+			}
+			reach := []tr{{prev.H, prev.NC}}
 			var vk string
 			for _, h := range e.hdrs {
 				if h.index == next.H && h.next == next.NC {
 					vk = h.variant
-					if h.index > prev.H && h.script == prev.NC && h.dv >= k.m[prev.NC] {
-						justified = true
+				}
+				for _, t := range append([]tr{}, reach...) {
+					if t.nc >= 0 && h.index > t.h && h.next != t.nc && h.script == t.nc && h.dv >= k.m[t.nc] {
+						reach = append(reach, tr{h.index, h.next})
 					}
 				}
+			}
+			justified := false
+			for _, t := range reach[1:] {
+				if t.h == next.H && t.nc == next.NC {
+					justified = true
+				}
+			}
+			if len(e.hdrs) > 1 {
+				r.Class(k.name + ":batch-change")
 			}
 			r.Case(fmt.Sprintf("%s/change/%s", k.name, vk))
 			if !justified {
@@ -710,7 +883,7 @@ func add(a *mc.Stats, b mc.Stats) {
 
 func main() {
 	r = ev.Start("C31", "model_checking")
-	r.Require("ont:accept", "ont:reject", "ont:resubmitted-height", "neo:change", "neo:no-change", "neo3:change", "neo3:no-change", "neo3legacy:change", "neo3legacy:no-change")
+	r.Require("ont:accept", "ont:reject", "ont:resubmitted-height", "ont:batch", "neo:change", "neo:no-change", "neo:batch-change", "neo3:batch-change", "neo3legacy:batch-change", "neo3:change", "neo3:no-change", "neo3legacy:change", "neo3legacy:no-change")
 	vals = polyenv.Keys(4)
 	polyenv.Setup(0, vals)
 	polyenv.InstallHeightLedger()
